@@ -7,6 +7,7 @@ import Pokerface.Model.Game
 import Pokerface.Model.View
 import Pokerface.Model.SeatManager
 import Pokerface.Model.Regulator
+import Pokerface.Model.Table
 import Pokerface.Generated.Tables
 /-
   Line-protocol driver: replays the harness's input lines on the model and prints
@@ -230,10 +231,48 @@ def parseROp (toks : List String) : Option Reg.ROp :=
   | ["release", t, ids, ch] => some (.release (t.toNat?.getD 0) (natList ids) (natList ch))
   | _ => none
 
+/-! ### table glue (seat manager -> engine) -/
+
+def intList (s : String) : List Int := (splitList s).filterMap String.toInt?
+
+def tErrName : Option TErr → String
+  | none => "none"
+  | some .insufficient => "insufficient" | some .maxGames => "maxgames"
+  | some (.sm e) => "sm:" ++ smErrName (some e)
+  | some (.game .insufficientPlayers) => "game:insufficient" | some (.game .noDealer) => "game:nodealer"
+  | some (.game .notEnoughBankroll) => "game:bankroll" | some (.game _) => "game:other"
+  | some .panic => "panic" | some .badInput => "badinput"
+
+def posLetters (d s b : Bool) : String :=
+  let x := (if d then "d" else "") ++ (if s then "s" else "") ++ (if b then "b" else "")
+  if x.isEmpty then "." else x
+
+def tbStr (t : Table) (o : TOut) : String :=
+  let seats := t.sm.seats.map fun s => s!"{optNat s.player}/{b01 s.active}/{b01 s.reserved}"
+  let per (f : TPlayer → String) := joinList (t.players.map fun p => match p with | some p => f p | none => "-")
+  let cfg := match o.cfg with
+    | none => "-"
+    | some c => joinList (c.map fun (s : SeatCfg) => posLetters s.dealer s.sb s.bb)
+  let cfgbank := match o.cfg with
+    | none => "-"
+    | some c => joinList (c.map fun (s : SeatCfg) => toString s.bankroll)
+  s!"tb err={tErrName o.err} ret={optNat o.ret} inpos={b01 t.inPosition} games={t.gameCount} dealer={optNat t.sm.dealer} sb={optNat t.sm.sb} bb={optNat t.sm.bb} seats={joinList seats} pid={per (fun p => toString p.pid)} pos={per (fun p => posLetters p.dealer p.sb p.bb)} playable={per (fun p => b01 p.playable)} gidx={per (fun p => toString p.gameIdx)} bank={per (fun p => toString p.bankroll)} cfg={cfg} cfgbank={cfgbank}"
+
+def parseTOp (toks : List String) : Option TOp :=
+  match toks with
+  | ["join", seat, pid, bank, chose] => some (.join (seat.toInt?.getD 0) (pid.toNat?.getD 0) (bank.toInt?.getD 0) chose.toNat?)
+  | ["leave", id] => some (.leave (id.toInt?.getD 0))
+  | ["activate", id] => some (.activate (id.toInt?.getD 0))
+  | ["reserve", id] => some (.reserve (id.toInt?.getD 0))
+  | ["setup"] => some .setup
+  | ["hand", finals] => some (.hand (intList finals))
+  | _ => none
+
 structure DState where
   game : Option Game := none
   sm : SM := SM.new 0
   rg : Reg := { max := 9, min := 6 }
+  tb : Table := Table.new 0 {}
 
 def stepLine (s : DState) (line : String) : DState × String :=
   match (line.trimAscii.toString.splitOn " ").filter (· != "") with
@@ -284,6 +323,14 @@ def stepLine (s : DState) (line : String) : DState × String :=
   | "rg" :: rest =>
     match parseROp rest with
     | some op => let (r, o) := s.rg.step op; ({ s with rg := r }, rgStr r o)
+    | none => (s, "bad")
+  | "tb" :: "new" :: rest =>
+    let m := kvs rest
+    let t := Table.new (getNat m "max") { initialPlayers := getNat m "init", minPlayers := getNat m "min", maxGames := getNat m "maxgames", leaveMode := getNat m "leave" == 1 }
+    ({ s with tb := t }, tbStr t {})
+  | "tb" :: rest =>
+    match parseTOp rest with
+    | some op => let (t, o) := s.tb.step op; ({ s with tb := t }, tbStr t o)
     | none => (s, "bad")
   | [] => (s, "")
   | _ => (s, "bad")
